@@ -254,9 +254,9 @@ impl Melda {
 }
 
 // ================================================================ spec of the property statement
-/// (a) a pack applied in `other`, byte-identical to `other`'s item and named by the digest of its bytes
-pub open spec fn melded_pack(other: Melda, k: Seq<char>, bytes: Seq<u8>) -> bool {
-    exists|p: Seq<char>| #[trigger] sset(other.data.applied_pack_ids).contains(p) && k == pkey(p)
+/// (a) a pack applied in `other` and not applied here, byte-identical to `other`'s item and named by the digest of its bytes
+pub open spec fn melded_pack(mine_applied: Set<Seq<char>>, other: Melda, k: Seq<char>, bytes: Seq<u8>) -> bool {
+    exists|p: Seq<char>| #[trigger] sset(other.data.applied_pack_ids).contains(p) && !mine_applied.contains(p) && k == pkey(p)
         && other.data.adapter.store().contains_key(k) && bytes == other.data.adapter.store()[k] && sha_hex(bytes) == p
 }
 /// witness form of (b)
@@ -274,12 +274,12 @@ pub open spec fn melded_plain(other: Melda, k: Seq<char>, bytes: Seq<u8>) -> boo
     !ends_with(k, DELTA_EXTENSION@) && !ends_with(k, PACK_EXTENSION@)
         && other.data.adapter.store().contains_key(k) && bytes == other.data.adapter.store()[k]
 }
-pub open spec fn melded_item(mine: Map<DeltaId, Delta>, other: Melda, k: Seq<char>, bytes: Seq<u8>) -> bool {
-    melded_pack(other, k, bytes) || melded_block(mine, other, k, bytes) || melded_plain(other, k, bytes)
+pub open spec fn melded_item(mine_applied: Set<Seq<char>>, mine: Map<DeltaId, Delta>, other: Melda, k: Seq<char>, bytes: Seq<u8>) -> bool {
+    melded_pack(mine_applied, other, k, bytes) || melded_block(mine, other, k, bytes) || melded_plain(other, k, bytes)
 }
 /// every item of `now` that `before` lacks is a melded item of `other`
-pub open spec fn only_melded(before: Store, now: Store, mine: Map<DeltaId, Delta>, other: Melda) -> bool {
-    forall|k: Seq<char>| #[trigger] now.contains_key(k) && !before.contains_key(k) ==> melded_item(mine, other, k, now[k])
+pub open spec fn only_melded(before: Store, now: Store, mine_applied: Set<Seq<char>>, mine: Map<DeltaId, Delta>, other: Melda) -> bool {
+    forall|k: Seq<char>| #[trigger] now.contains_key(k) && !before.contains_key(k) ==> melded_item(mine_applied, mine, other, k, now[k])
 }
 /// `k` is one of the returned keys
 pub open spec fn named(l: Seq<String>, k: Seq<char>) -> bool { exists|i: int| 0 <= i < l.len() && #[trigger] l[i]@ == k }
@@ -304,3 +304,66 @@ pub proof fn lemma_reported_push(before: Store, now: Store, l: Seq<String>, l2: 
         else { assert(now.contains_key(k)); let i = choose|i: int| 0 <= i < l.len() && #[trigger] l[i]@ == k; assert(l2[i]@ == k); }
     }
 }
+
+// ================================================================ corollaries (system level)
+/// every pack item is named by the digest of its bytes
+pub open spec fn packs_addressed(s: Store) -> bool {
+    forall|p: Seq<char>| #[trigger] s.contains_key(pkey(p)) ==> sha_hex(s[pkey(p)]) == p
+}
+pub proof fn lemma_concat_cancel(a: Seq<char>, b: Seq<char>, e: Seq<char>)
+    requires a + e == b + e,
+    ensures a == b,
+{
+    assert((a + e).len() == (b + e).len());
+    assert(a =~= (a + e).subrange(0, a.len() as int));
+    assert(b =~= (b + e).subrange(0, b.len() as int));
+}
+pub proof fn lemma_ends_with_concat(a: Seq<char>, e: Seq<char>)
+    ensures ends_with(a + e, e),
+{
+    assert((a + e).subrange((a + e).len() - e.len(), (a + e).len() as int) =~= e);
+}
+/// no key is both a pack key and a block key (".pack" / ".delta" end in different characters)
+pub proof fn lemma_ext_differ(s: Seq<char>)
+    ensures !(ends_with(s, PACK_EXTENSION@) && ends_with(s, DELTA_EXTENSION@)),
+{
+    reveal_strlit(".pack"); reveal_strlit(".delta");
+    if ends_with(s, PACK_EXTENSION@) && ends_with(s, DELTA_EXTENSION@) {
+        let a = s.subrange(s.len() - 5, s.len() as int); let b = s.subrange(s.len() - 6, s.len() as int);
+        assert(a[4] == 'k'); assert(b[5] == 'a');
+        assert(a[4] == s[s.len() - 1]); assert(b[5] == s[s.len() - 1]);
+    }
+}
+/// C11 (content addressing is preserved): if every pack item of this replica's storage is named by the digest of its
+/// bytes before a meld, the same holds after it — whatever the other replica's storage contains
+pub proof fn lemma_meld_keeps_packs_addressed(before: Store, now: Store, mine_applied: Set<Seq<char>>, mine: Map<DeltaId, Delta>, other: Melda)
+    requires packs_addressed(before), store_grows(before, now), only_melded(before, now, mine_applied, mine, other),
+    ensures packs_addressed(now),
+{
+    assert forall|p: Seq<char>| #[trigger] now.contains_key(pkey(p)) implies sha_hex(now[pkey(p)]) == p by {
+        let k = pkey(p);
+        lemma_ends_with_concat(p, PACK_EXTENSION@);
+        if before.contains_key(k) { assert(now[k] == before[k]); } else {
+            assert(melded_item(mine_applied, mine, other, k, now[k]));
+            if melded_pack(mine_applied, other, k, now[k]) {
+                let q = choose|q: Seq<char>| #[trigger] sset(other.data.applied_pack_ids).contains(q) && !mine_applied.contains(q) && k == pkey(q)
+                    && other.data.adapter.store().contains_key(k) && now[k] == other.data.adapter.store()[k] && sha_hex(now[k]) == q;
+                lemma_concat_cancel(p, q, PACK_EXTENSION@);
+            } else if melded_block(mine, other, k, now[k]) {
+                let (did, o, d) = choose|did: DeltaId, o: JMap, d: Delta| #[trigger] melded_block_by(mine, other, k, now[k], did, o, d);
+                lemma_ends_with_concat(did_str(did@), DELTA_EXTENSION@);
+                lemma_ext_differ(k);
+            }
+        }
+    }
+}
+/// ROUND TRIP (to be discharged by unit `block`, NOT assumed anywhere here): re-serialising the block parsed from a stored
+/// item gives back the item's bytes.  Holds for items written by `commit` (serde_json prints what it parsed: sorted keys).
+pub open spec fn block_roundtrip(store: Store) -> bool {
+    forall|k: Seq<char>, dig: Seq<char>, o: JMap, id: DidV, d: Delta| #[trigger] fetched(store, k, dig, o) && #[trigger] loaded(id, o, d) ==> block_text(d) == store[k]
+}
+/// under the round-trip hypothesis a melded block is byte-identical to the other replica's item and named by the digest of its bytes
+pub proof fn lemma_melded_block_identical(mine: Map<DeltaId, Delta>, other: Melda, k: Seq<char>, bytes: Seq<u8>, did: DeltaId, o: JMap, d: Delta)
+    requires melded_block_by(mine, other, k, bytes, did, o, d), block_roundtrip(other.data.adapter.store()),
+    ensures bytes == other.data.adapter.store()[k], sha_hex(bytes) == did@.1,
+{ }
